@@ -104,6 +104,112 @@ def gen_data(r, nan=False):
     return b
 
 
+def gen_boundary_case(r):
+    """Window-boundary placement: a delimiter is the LAST byte of every page (so of every mmap window and of every
+    full read buffer), more words of the same line follow it, and the file ends inside the window after the first
+    one (so the Shift issued at that boundary maps the FINAL window / delivers the last data).  The script drains the
+    whole input with one family of operations, so that each operation meets the boundary while it is skipping
+    delimiters, scanning a word, or just starting.  Returns (plain, ops, min_buffer)."""
+    mb = r.choice([0, 1, 4096, 8192, 12287, 20000])
+    M = PAGE * max(mb // PAGE + 1, 2)
+    total = M + r.choice([1, 2, PAGE - 1, PAGE, PAGE + 1, M - 1, M, r.randint(1, M)])
+    if r.random() < 0.25:
+        total = M * r.choice([2, 3]) + r.randint(1, M)      # more than one Shift before the final one
+    number = r.random() < 0.3
+    out = bytearray()
+    words_on_line = 0
+    while len(out) < total:
+        tok = (str(r.randint(0, 10 ** r.randint(1, 9))) if number else "w%05d" % r.randint(0, 99999)).encode()
+        room = PAGE - 1 - (len(out) % PAGE)            # bytes before the last byte of this page
+        if room < len(tok) + 1:
+            # fill up to the last byte of the page with word characters, then the delimiter ON the last byte
+            if room > 0:
+                out += (b"7" if number else b"y") * room
+            if r.random() < 0.35 and words_on_line >= 1:
+                out += b"\n"; words_on_line = 0
+            else:
+                out += r.choice([b" ", b" ", b"\t"]); words_on_line += 1
+            if r.random() < 0.3:
+                out += r.choice([b" ", b"  ", b"\t "])   # the delimiter run continues into the next window
+            continue
+        out += tok
+        words_on_line += 1
+        if words_on_line >= r.randint(3, 12) and (len(out) + 1) % PAGE != 0:
+            out += b"\n"; words_on_line = 0
+        else:
+            out += b" "
+    plain = bytes(out[:total])
+    if r.random() < 0.5 and not plain.endswith(b"\n"):
+        plain += b"\n"
+    fam = r.choice(["num"] * 5 + ["WG", "D", "L", "mix"]) if number else r.choice(["WG", "WG", "WG", "WL", "D", "L", "SD", "GP", "mix", "Dset", "Wset"])
+    return plain, drain_ops(r, plain, fam), mb
+
+
+def drain_ops(r, plain, fam):
+    """a script that walks through the whole input with one family of operations"""
+    nlines = plain.count(b"\n") + 2
+    ntok = len(plain.split()) + 2
+    if fam == "WG":      # the loops of lmplz (corpus_count) and query: words of a line, then the newline by get()
+        ops = []
+        for ln in plain.split(b"\n"):
+            ops += ["W sp"] * (len(ln.split()) + 1) + ["G"]
+        ops = ops[:6000]
+    elif fam == "WL":
+        ops = []
+        for ln in plain.split(b"\n"):
+            k = len(ln.split())
+            ops += ["W sp"] * r.randint(0, k + 1) + ["L 10 1"]
+        ops = ops[:6000]
+    elif fam == "D":
+        ops = ["D sp"] * min(ntok, 6000)
+    elif fam == "L":
+        ops = ["L 10 1"] * min(nlines, 6000)
+    elif fam == "E":
+        ops = ["E 10 0"] * min(nlines, 6000)
+    elif fam == "SD":
+        ops = ["S sp", "D sp"] * min(ntok, 3000)
+    elif fam == "Dset":   # caller-supplied tables with delimiters outside kSpaces (lmplz: NUL, tab, LF, CR, space)
+        st = r.choice(["set:0a2c7c0020", "set:00090a0d20", "set:0a2c", "set:0a7c2c20"])
+        ops = ["D " + st] * min(ntok * 3, 6000)
+    elif fam == "Wset":
+        st = r.choice(["set:0a2c7c0020", "set:00090a0d20", "set:0a2c20"])
+        ops = [x for _ in range(min(ntok * 2, 3000)) for x in ("W " + st, r.choice(["W " + st, "G"]))]
+    elif fam == "num":
+        ops = [r.choice(["U", "I", "F", "B"]) for _ in range(min(ntok, 4000))]
+    elif fam == "GP":
+        ops = ["W sp"] * 5 + [r.choice(["G", "P", "G"]) for _ in range(min(len(plain) + 3, 5000))]
+    else:
+        ops = [r.choice(["W sp", "W sp", "G", "D sp", "S sp", "L 10 1", "P", "E 10 0", "W set:0a20"]) for _ in range(min(ntok * 2, 6000))]
+    return ops + ["W sp", "G", "D sp", "L 10 1", "W sp", "P", "U", "F"]
+
+
+def gen_band_case(r):
+    """File sizes swept through the whole range (one window, two windows + a page] with tokens NOT aligned to pages, and
+    a draining script: the last Shift then happens at an arbitrary offset inside a page, with the rest of the file
+    a little more or a little less than what the window can show (the decision `is this the final window` is taken
+    on either side of its threshold).  Returns (plain, ops, min_buffer)."""
+    mb = r.choice([0, 1, 1, 4096, 8192, 12287])
+    M = PAGE * max(mb // PAGE + 1, 2)
+    total = r.randint(M + 1, 2 * M + PAGE)
+    number = r.random() < 0.25
+    linelen = r.choice([0, 0, 100, 37, 1000, 3000])
+    out = bytearray()
+    while len(out) < total:
+        if linelen:
+            out += bytes(r.choice(b"abcdefgh ") for _ in range(linelen - 1)) + b"\n"
+        else:
+            out += (str(r.randint(0, 10 ** r.randint(1, 9))).encode() if number else gen_token(r))
+            out += r.choice([b" ", b" ", b"\n", b"\t", b"  "])
+    plain = bytes(out[:total])
+    if r.random() < 0.4:
+        plain = plain.rstrip(SP)
+    for m in MAGICS:
+        if plain.startswith(m):
+            plain = b"a" + plain
+    fam = r.choice(["num"] * 4 + ["D", "L"]) if number else r.choice(["L", "L", "E", "D", "WG", "WL", "SD", "mix", "Dset", "Dset", "Wset"])
+    return plain, drain_ops(r, plain, fam), mb
+
+
 SETS = ["sp", "sp", "sp", "set:0a", "set:0a20", "set:0a2c", "set:0a0920", "set:0a00", "set:0a7c2c20"]
 
 
@@ -269,10 +375,18 @@ def nan_token_at(plain, spec_prev_off):
     return tok.startswith(b"NaN") or tok == b"nan"
 
 
-def run_case(ctx, T, r, ci, found_classes, numbers=True, nan=False):
+def run_case(ctx, T, r, ci, found_classes, numbers=True, nan=False, boundary=False, band=False):
     plain = gen_data(r, nan=nan)
     ops = gen_ops(r, plain, numbers)
     mbs = [0, 1, 4095, 4096, 5000, 8192, 12287, 20000, 65536]
+    if boundary:
+        plain, ops, bmb = gen_boundary_case(r)
+        mbs = [bmb]
+        ctx.hist("fp.boundary_case", True)
+    if band:
+        plain, ops, bmb = gen_band_case(r)
+        mbs = [bmb]
+        ctx.hist("fp.band_case", True)
     backends = []   # (name, hkind, mkind, codec, exact, shim, min_buffer)
     shim_modes = [(1, 0, 1), (2, 0, PAGE - 1), (3, r.randrange(1 << 32), r.choice([2, 7, 100, 4096, 9000, 70000]))]
     backends.append(("file", "file", "file", "plain", True, (0, 0, 1), r.choice(mbs)))
@@ -474,6 +588,42 @@ def directed_cases(ctx, T, r, found_classes):
                        [("pipe", "pipe", "pipe", "plain", True, (0, 0, 1), 1),
                         ("file", "file", "file", "plain", True, (0, 0, 1), 1),
                         ("istream", "istream", "lazy", "plain", True, (0, 0, 1), 1)], found_classes)
+    # ReadWordSameLine (and every other space-skipping loop) when the Shift it issues maps the FINAL mmap window: the
+    # delimiter is byte 8191, the line goes on at byte 8192 (a past miss: seeded C18-8 tested at_end_ there)
+    for delim in (b" ", b"\n"):
+        body = (b"w1 w22 w333\n" * 700)[:8191 - 4] + b" zzz"
+        body = body[:8191] + delim + b"next words of the line\nand more\n" + b"tail " * 300
+        wg = []
+        for ln in body.split(b"\n"):
+            wg += ["W sp"] * (len(ln.split()) + 1) + ["G"]
+        found |= eval_case(ctx, T, r, body, wg,
+                           [("file", "file", "file", "plain", True, (0, 0, 1), 1),
+                            ("pipe", "pipe", "pipe", "plain", True, (0, 0, 1), 1),
+                            ("istream", "istream", "lazy", "plain", True, (0, 0, 1), 1)], found_classes)
+    # delimiter tables with members outside kSpaces: a delimiter after the last white space of the window / of the input
+    found |= eval_case(ctx, T, r, b"a b c,d|e\x00f", ["D set:0a2c7c0020"] * 7 + ["W set:0a2c7c0020"],
+                       [("file", "file", "file", "plain", True, (0, 0, 1), 1),
+                        ("pipe+shim1", "pipe", "pipe", "plain", True, (1, 0, 1), 1),
+                        ("istream", "istream", "lazy", "plain", True, (0, 0, 1), 1)], found_classes)
+    body = b"ab cd " + b"x" * 8180 + b",yz|uv\x00w " + b"q," * 3000
+    found |= eval_case(ctx, T, r, body, ["D set:0a2c7c0020"] * 40 + ["W set:00090a0d20"] * 5,
+                       [("file", "file", "file", "plain", True, (0, 0, 1), 1),
+                        ("pipe", "pipe", "pipe", "plain", True, (0, 0, 1), 1)], found_classes)
+    # the last token is a number without a newline or space behind it (ReadNumber must hallucinate the terminator once the
+    # end has been seen *during* the call): read() backends learn about the end only by a 0-byte read
+    found |= eval_case(ctx, T, r, b"12 34 56", ["U", "I", "F", "G", "U"],
+                       [("pipe", "pipe", "pipe", "plain", True, (0, 0, 1), 1),
+                        ("istream", "istream", "lazy", "plain", True, (0, 0, 1), 1),
+                        ("file", "file", "file", "plain", True, (0, 0, 1), 1)], found_classes)
+    found |= eval_case(ctx, T, r, b"7 " * 4094 + b"1234567890", ["U"] * 4096,
+                       [("file", "file", "file", "plain", True, (0, 0, 1), 1),
+                        ("pipe", "pipe", "pipe", "plain", True, (0, 0, 1), 1)], found_classes)
+    # the last Shift happens in the middle of a page and the rest of the file is a little more than the window shows
+    # (100-byte lines, 13000 bytes, 8 KiB window: at offset 8100 the window becomes [4096, 12288), not the final one)
+    body = (b"x" * 99 + b"\n") * 130
+    found |= eval_case(ctx, T, r, body, ["L 10 1"] * 132 + ["G"],
+                       [("file", "file", "file", "plain", True, (0, 0, 1), 1),
+                        ("pipe", "pipe", "pipe", "plain", True, (0, 0, 1), 1)], found_classes)
     # F: Properties/C18 `Old.offset_after_mmap_fallback`: the second mmap (file offset 4096) is refused
     found |= eval_case(ctx, T, r, b"ab " + b"c" * 5000 + b" " + b"e" * 9000 + b" tail\n", ["D sp", "D sp", "D sp", "D sp", "G"],
                        [("file+mmapfail", "file", "file", "plain", True, (0, 0, 1, 4096), 1),
@@ -658,10 +808,10 @@ def run(ctx):
         return
     found = False
     classes = set()
-    n = 36 if ctx.tier == "quick" else 500
+    n = 48 if ctx.tier == "quick" else 600
     found |= directed_cases(ctx, T, ctx.rng, classes)
     for ci in range(n):
-        found |= run_case(ctx, T, ctx.rng, ci, classes, numbers=True, nan=(ci % 12 == 11))
+        found |= run_case(ctx, T, ctx.rng, ci, classes, numbers=True, nan=(ci % 12 == 9), boundary=(ci % 3 == 1), band=(ci % 3 == 2))
     found |= rc_cases(ctx, T, ctx.rng, 40 if ctx.tier == "quick" else 600, classes)
     found |= tok_cases(ctx, T, ctx.rng, 200 if ctx.tier == "quick" else 5000)
     ctx.cov["rule"] = ("filepiece: one evaluation = one (input, op script, backend, min_buffer, read-size pattern); non-trivial when the "
